@@ -171,3 +171,25 @@ Example C14_source_va_read_third_allocation_fails :
   | _ => False
   end.
 Proof. vm_compute. reflexivity. Qed.
+
+(* sbdf_va_read on the encoding of a well-formed plain or run-length value array, followed by anything, under EVERY
+   allocation schedule: the call returns; either it fails with a negative status, the handle null and every block it
+   allocated released again - or it succeeds, and then the stream stands exactly behind the array (tail is what is left)
+   and the handle points at the new value array: an allocation failure never shifts where a successful read ends. *)
+From Sbdf Require Import ImpFactsReadVa Va VaFacts Obj.
+Theorem C14_source_va_read_any_schedule : forall rf rp fo po k m h v tail, wf_va v -> byte_ok (vty v) -> venc v <> SBDF_BITARRAYENCODINGTYPEID ->
+  Forall byte (enc_va false v ++ tail) ->
+  exists f0, forall f, (f0 <= f)%nat -> exists st fin,
+    callC prog_env f prog_sbdf_va_read [VPtr rf fo; VPtr rp po] m k (enc_va false v ++ tail) h = OReturn (VInt st) fin /\
+    ((st = SBDF_OK /\ Imp.lookup strm_var (vars fin) = Some (VBytes tail) /\ Imp.lookup "*handle" (vars fin) = Some (VCell (List.length h) 0)) \/
+     (st < 0 /\ Imp.lookup "*handle" (vars fin) = Some VNull /\ exists j, Imp.lookup cells_var (vars fin) = Some (VHeap (h ++ nones j))))%Z.
+Proof.
+  intros rf rp fo po k m h v tail W B Hne Hb.
+  assert (H3 : forall t s2, enc_va false v ++ tail <> 3%Z :: t :: s2).
+  { intros t s2 E. unfold enc_va in E. cbn [app] in E. injection E as E _. destruct W; cbn [venc] in *; try discriminate E. apply Hne. reflexivity. }
+  destruct (va_read_source rf rp fo po k (enc_va false v ++ tail) m h Hb H3) as (f0 & F). exists f0. intros f Hf.
+  destruct (F f Hf) as (st & fin & C & _ & _ & Out & PP). exists st, fin. split; [exact C|].
+  destruct Out as [(E & Hh & _)|(Hn & Hh & Hj)]; [|right; split; [exact Hn|split; [exact Hh|exact Hj]]].
+  left. split; [exact E|]. split; [|exact Hh]. specialize (PP E). destruct (rspec_va false v W B) as [EV _]. rewrite (EV tail) in PP. exact PP.
+Qed.
+Print Assumptions C14_source_va_read_any_schedule.
